@@ -186,11 +186,101 @@ def _ioapi_case(rng):
     return case
 
 
+def _cli_case(rng):
+    """pieces of differing lengths stacked (a) through the command-line / PNC front end, alone and together with a window on
+    the stacked or on another dimension (the window is taken OF THE STACKED FILE), (b) after each piece went through
+    operations that leave a variable's own name different from its key (an in-place eval, an assigned expression), (c) with
+    a dimension of length 0 that is not the stacked one (method and legacy form keep its flag).  Oracle only."""
+    return dict(kind='cli', files=[], dim='t', lens=[rng.randint(1, 4) for _ in range(rng.randint(2, 4))], nx=rng.randint(2, 4),
+                nstation=rng.choice([0, 0, 1, 2]))
+
+
 def gen(rng, tier):
     n = 300 if tier == 'quick' else 8000
     out = [_case(rng) for _ in range(n)]
     out += [_ioapi_case(rng) for _ in range(n // 12)]
+    out += [_cli_case(rng) for _ in range(max(4, n // 50))]
     return out
+
+
+def _impl_cli(case):
+    import PseudoNetCDF as pnc
+    from PseudoNetCDF.pncparse import pncparse
+    from PseudoNetCDF.core._functions import stack_files
+    lens, nx, ns = case['lens'], case['nx'], case['nstation']
+
+    def mk():
+        files, start = [], 0
+        for i, n in enumerate(lens):
+            f = pnc.PseudoNetCDFFile()
+            f.createDimension('t', n).setunlimited(True)
+            f.createDimension('x', nx)
+            f.createDimension('s', ns)
+            v = f.createVariable('A', 'd', ('t', 'x'))
+            v.units = 'm'
+            v[:] = np.arange(n * nx, dtype='d').reshape(n, nx) + 100. * (i + 1)
+            tv = f.createVariable('t', 'd', ('t',))
+            tv[:] = np.arange(start, start + n)
+            sv = f.createVariable('S', 'd', ('t', 's'))
+            sv[:] = 1.
+            start += n
+            files.append(f)
+        return files
+    res = dict(runs={})
+    try:
+        with lib.pnc_warnings():
+            def run(extra):
+                fs, _ = pncparse(has_ofile=False, args=['--stack=t'] + extra, ifiles=mk())
+                o = fs[0]
+                return dict(A=np.asarray(o.variables['A'][:]).tolist(), t=np.asarray(o.variables['t'][:]).tolist(), nt=len(o.dimensions['t']))
+            res['runs']['plain'] = run([])
+            res['runs']['x'] = run(['--slice=x,1,%d' % nx])
+            edges = np.cumsum([0] + lens).tolist()
+            for i in range(len(lens)):
+                res['runs']['piece%d' % i] = run(['--slice=t,%d,%d' % (edges[i], edges[i + 1])])
+            # (b) names that differ from keys
+            fs = mk()
+            for f in fs:
+                f.eval('B = A * 2 + 1', inplace=True)
+                f.variables['C'] = f.variables['A'] - 1000
+            o = fs[0].stack(fs[1:], 't')
+            res['derived'] = {k: np.asarray(o.variables[k][:]).tolist() if k in o.variables else None for k in ('A', 'B', 'C')}
+            # (c) the flags of the dimensions, both forms
+            fs = mk()
+            res['flags'] = dict(method={k: bool(d.isunlimited()) for k, d in fs[0].stack(fs[1:], 't').dimensions.items()},
+                                legacy={k: bool(d.isunlimited()) for k, d in stack_files(mk(), 't').dimensions.items()})
+    except lib.HarnessError:
+        raise
+    except Exception as e:
+        return dict(err=type(e).__name__, msg=str(e)[:100])
+    return res
+
+
+def _oracle_cli(case, res):
+    if 'err' in res:
+        return 'stacking pieces through the front end raised %s %s' % (res['err'], res.get('msg'))
+    lens, nx = case['lens'], case['nx']
+    pieces = [np.arange(n * nx, dtype='d').reshape(n, nx) + 100. * (i + 1) for i, n in enumerate(lens)]
+    whole = np.concatenate(pieces, axis=0)
+    edges = np.cumsum([0] + lens).tolist()
+    want = dict(plain=whole, x=whole[:, 1:nx])
+    for i in range(len(lens)):
+        want['piece%d' % i] = pieces[i]
+    for k, w in want.items():
+        r = res['runs'][k]
+        if r['A'] != w.tolist() or r['nt'] != w.shape[0]:
+            return '--stack=t %s: A %s (t = %d), the stacked file%s has %s' % (
+                '' if k == 'plain' else ('--slice=x,1,%d' % nx if k == 'x' else '--slice=t,%d,%d' % (edges[int(k[5:])], edges[int(k[5:]) + 1])),
+                str(r['A'])[:80], r['nt'], '' if k == 'plain' else ' cut at that window', str(w.tolist())[:80])
+    for k, fn in (('A', lambda a: a), ('B', lambda a: a * 2 + 1), ('C', lambda a: a - 1000)):
+        if res['derived'][k] != fn(whole).tolist():
+            return 'stack of files whose variable %s was made by an expression: %s, the concatenation is %s' % (
+                k, str(res['derived'][k])[:80], str(fn(whole).tolist())[:80])
+    for form, fl in res['flags'].items():
+        if fl != dict(t=True, x=False, s=False):
+            return 'stack (%s form) of pieces with a dimension s of length %d: unlimited flags %s, the pieces have t only' % (
+                form, case['nstation'], fl)
+    return None
 
 
 def _impl_ioapi(case):
@@ -301,6 +391,8 @@ def _pop_labels(o):
 def impl(case):
     if case['kind'] == 'ioapi':
         return _impl_ioapi(case)
+    if case['kind'] == 'cli':
+        return _impl_cli(case)
     fs = [pfile.build(s) for s in case['files']]
     if case.get('labels'):
         _add_labels(case, fs)
@@ -406,7 +498,7 @@ def _multifile(case):
 
 
 def to_line(case, res):
-    if case['kind'] == 'ioapi':
+    if case['kind'] in ('ioapi', 'cli'):
         return 'c04 stack 0 x'          # no model question: judged against the original file
     toks = []
     for s in case['files']:
@@ -415,7 +507,7 @@ def to_line(case, res):
 
 
 def agree(case, out, res):
-    if case['kind'] == 'ioapi':
+    if case['kind'] in ('ioapi', 'cli'):
         return None
     if 'err' in res:
         return None if out.startswith('err') else 'impl raised %s (%s), model %s' % (res['err'], res.get('msg'), out[:80])
@@ -493,6 +585,8 @@ def _expected_text(spec):
 def oracle(case, res):
     if case['kind'] == 'ioapi':
         return _oracle_ioapi(case, res)
+    if case['kind'] == 'cli':
+        return _oracle_cli(case, res)
     if case['kind'] == 'bad':
         return None
     if 'err' in res:
@@ -575,6 +669,8 @@ def witnesses():
 def nontrivial(case, res):
     if case['kind'] == 'ioapi':
         return 'stack' in res
+    if case['kind'] == 'cli':
+        return 'runs' in res
     if len(case['files']) < 2:
         return False
     return any(case['dim'] in v['dims'] and v['dims'].index(case['dim']) > 0 for v in case['files'][0]['vars'])
